@@ -80,8 +80,9 @@ def lifecycle_histories(rng, tier):
             hs.append({"id": "c%d" % n, "setup": setup, "calls": calls})
             n += 1
     # the standard streams are not directories: every path-taking call through them is refused
+    # (nor can they be listed: the model leaves the error open, but the host must survive the call)
     for x in (0, 1, 2):
-        for k1 in PATHUSES:
+        for k1 in PATHUSES + ["readdir"]:
             calls = list(opens) + [use(k1, x, rng.choice("pu")), {"call": "open", "abi": "p", "dirfd": 3, "path": "a", "abs": False, "oflags": 0, "rd": True, "wr": False, "app": False}]
             hs.append({"id": "s%d" % n, "setup": setup, "calls": calls})
             n += 1
